@@ -280,6 +280,70 @@ def _write_sizes(ctx, rep, base):
     shutil.rmtree(root, ignore_errors=True)
 
 
+def _s3_uploads(ctx, rep):
+    """object stores have no fsync: what 'content flushed' means there is that each acknowledged PUT carried the whole content. Every
+    PUT of {create, append, delete files} broken ONCE after its body went out (a stream body is consumed by then), for both commit
+    paths: if the operation is acknowledged, the pointer reaches only objects with their full content (independent reader)."""
+    import botocore.exceptions as bx
+    from .. import fakes3, reader
+    for cas in (True, False):
+        for op in ("create", "append", "delfiles"):
+            k = 0
+            while True:
+                with fakes3.S3Env(cas=cas) as env, fakes3.NoSleep():
+                    loc = "wh/u"
+                    state = {"seen": 0, "armed": False, "hit": None}
+
+                    def hook(phase, opn, key, kw, state=state, k=k):
+                        if phase == "before" and opn == "put-body-sent" and state["armed"]:
+                            state["seen"] += 1
+                            if state["seen"] - 1 == k:
+                                state["hit"] = key
+                                raise bx.ConnectionClosedError(endpoint_url="https://example.invalid")
+                    env.fake.hook = hook
+                    if op != "create":
+                        t = tablekit.create(loc)
+                        t.append_records(tablekit.rows(3))
+                    state["armed"] = True
+                    try:
+                        if op == "create":
+                            t = tablekit.create(loc)
+                        elif op == "append":
+                            t.append_records(tablekit.rows(2, start=50))
+                        else:
+                            with t.new_transaction() as tx:
+                                tx.delete_files(tablekit.data_paths(t)[:1])
+                                tx.commit()
+                        ack = True
+                    except Exception as e:      # noqa: BLE001
+                        ack = False
+                        err = f"{type(e).__name__}"
+                    state["armed"] = False
+                    env.fake.hook = None
+                    if state["hit"] is None:
+                        break               # fewer than k+1 PUTs: sweep done
+                    rep.evaluations += 1
+                    rep.nontrivial(["s3-upload", cas, op, k])
+                    rep.distribution[f"s3-upload:{'ack' if ack else 'raise'}"] += 1
+                    case = {"kind": "s3-upload-broken-after-body-sent", "conditional_writes": cas, "op": op, "put_index": k, "key": state["hit"]}
+                    if op == "create" and not ack and not any(k_.endswith("metadata.version-hint.text") for k_ in env.fake.objects):
+                        k += 1
+                        continue            # a creation that failed before publishing anything: no table, nothing to read
+                    try:
+                        v = reader.view(reader.S3Store(env.fake, loc))
+                        reader.reachable(reader.S3Store(env.fake, loc))
+                        empties = [k_ for k_, o_ in env.fake.objects.items() if len(o_.data) == 0 and "/.locks/" not in k_ and not k_.endswith(".inflight")]
+                        if empties and ack:
+                            rep.violate("C16:s3-empty-object-after-acknowledged-write", f"S3 ({'CAS' if cas else 'plain'}) {op}: PUT #{k} ({state['hit']}) broke after the body "
+                                        f"went out; the operation was acknowledged and {empties[:2]} are EMPTY objects", case)
+                    except Exception as e:      # noqa: BLE001
+                        rep.violate("C16:s3-pointer-to-damaged-object", f"S3 ({'CAS' if cas else 'plain'}) {op}: PUT #{k} ({state['hit']}) broke after the body went out; "
+                                    f"operation {'acknowledged' if ack else 'failed'}; the table no longer reads: {type(e).__name__}: {str(e)[:100]}", case)
+                k += 1
+                if k > 40:
+                    break
+
+
 def run(ctx, model_ok):
     rep = Report()
     rep.rule = ("every operation type {create, append, two-append transaction, delete files, expire, delete snapshot, collect} × tables with "
@@ -296,6 +360,7 @@ def run(ctx, model_ok):
                 _trace_and_judge(ctx, rep, op, n, base, model_ok)
         _fsync_faults(ctx, rep, base)
         _write_sizes(ctx, rep, base)
+        _s3_uploads(ctx, rep)
         rep.exhaustive = True
     finally:
         shutil.rmtree(base, ignore_errors=True)
